@@ -168,6 +168,28 @@ pub fn gen_c12_case(g: &mut G) -> Value {
         };
         doc["definitions"]["TwoTags"] = json!({"oneOf": [mk(&["circle"], "radius"), mk(&["square"], "side"), mk(&["line"], "len")]});
     }
+    if g.chance(1, 3) {
+        // defaults with several members: sets, maps, struct-valued and nested ones
+        let words = ["delta", "alpha", "echo", "bravo", "charlie", "foxtrot"];
+        let k = 3 + g.below(4);
+        let set: Vec<&str> = words.iter().take(k).cloned().collect();
+        let map: serde_json::Map<String, Value> = words.iter().take(k).enumerate().map(|(i, w)| (w.to_string(), json!(i))).collect();
+        doc["definitions"]["ManyMemberDefaults"] = json!({
+            "type": "object",
+            "properties": {
+                "tags": {"type": "array", "items": {"type": "string"}, "uniqueItems": true, "default": set},
+                "nums": {"type": "array", "items": {"type": "integer"}, "uniqueItems": true, "default": [5, 3, 9, 1, 7]},
+                "weights": {"type": "object", "additionalProperties": {"type": "integer"}, "default": map},
+                "inner": {"$ref": "#/definitions/ManyMemberInner"},
+                "list": {"type": "array", "items": {"$ref": "#/definitions/ManyMemberInner"}, "default": [{"a": 1, "b": "x", "c": true}, {"a": 2}]}
+            }
+        });
+        doc["definitions"]["ManyMemberInner"] = json!({
+            "type": "object",
+            "properties": {"a": {"type": "integer"}, "b": {"type": "string"}, "c": {"type": "boolean"}, "d": {"type": "array", "items": {"type": "string"}, "uniqueItems": true}},
+            "default": {"a": 4, "b": "bee", "c": false, "d": ["z", "y", "x"]}
+        });
+    }
     let settings = settings(g, &doc, true);
     json!({"settings": settings, "doc": doc, "perm": g.u64() % 1_000_000, "cli": false})
 }
@@ -276,6 +298,9 @@ impl Property for C12 {
         let mut seen = std::collections::BTreeSet::new();
         unit.violations.retain(|v| seen.insert(v.symptom.clone()));
         unit
+    }
+    fn in_domain(&self, c: &Value) -> bool {
+        serde_json::from_value::<Settings>(c["settings"].clone()).map(|s| settings_in_domain(&s, &c["doc"]["definitions"])).unwrap_or(false)
     }
     fn predicate(&self, name: &str, case: &Value, v: &Violation) -> bool {
         super::predicates::check(name, case, v)
